@@ -39,7 +39,8 @@ type Facts struct {
 	Codec     map[string]*FuncFacts `json:"codec"`
 	LockProgs map[string][]string   `json:"lock_progs"` // registry functions: micro-operations in order
 	LockStmts map[string][]string   `json:"lock_stmts"` // registry functions: structured statements (LockProg.Stmt)
-	MemProgs  map[string][][]string `json:"mem_progs"`  // reader primitives: memory instructions (Alias.Instr)
+	MemProgs  map[string][][]string `json:"mem_progs"`
+	SymDiffs  []string              `json:"translator_disagreements"` // methods read differently by the two translators  // reader primitives: memory instructions (Alias.Instr)
 	CalcFacts map[string][]string   `json:"calc"`       // per Calc method: calls made on its argument
 	Algs      map[string]string     `json:"algorithms"` // service type -> Algorithm() literal
 	InitRegs  []string              `json:"init_registrations"`
